@@ -113,7 +113,8 @@ def _same(got, want, form, ts=None):
     if form["c"] == "dowdom" and ts is not None:
         return got in cal.dowdom_candidates(ts, form["p"][0], form["p"][1])
     # a clock time given to the hour only may leave the minute unset
-    if form["c"] == "clock" and got and got[0] == "T" and want[5] == 0 and got[5] is None:
+    if (form["c"] == "clock" or form.get("hour_only")) and got and got[0] == "T" \
+            and want[5] == 0 and got[5] is None:
         g = list(got)
         g[5] = 0
         return g == want
@@ -305,7 +306,12 @@ def execute(case):
                          "event %d: %r at %s raised %s" % (i, form["s"], instant, exc))
                     continue
                 if not _same(got, want, form, instant):
-                    kind = _kind(got, want) if form["c"] != "clock" else _clock_kind(got, want)
+                    got_k = got
+                    if form.get("hour_only") and got and got[0] == "T" and got[5] is None \
+                            and got[4] is not None:
+                        got_k = list(got)
+                        got_k[5] = 0       # an unset minute next to a set hour is :00
+                    kind = _kind(got_k, want) if form["c"] != "clock" else _clock_kind(got, want)
                     # mechanism probe: is the right reading produced but lost by the default
                     # stack-depth limit (max_stack_depth=10)?
                     # (probed once per template and failure kind within a session: the probe
@@ -521,7 +527,20 @@ def _session(prop, rng, n_req):
     for f in fs:
         # --- a clock event before (most) requests
         r = rng.random()
-        if prop == "C04" and f["c"] == "pod" and r < 0.5:
+        if prop == "C04" and f["c"] == "dowdom" and r < 0.4:
+            # the reference date itself carries the written weekday and day of month (or is the
+            # day after such a date), at any time of day incl. its last microsecond
+            nt = _boundary_instant(rng, lo, hi)
+            for _ in range(366 * 12):
+                if nt.day == f["p"][1] and nt.weekday() == f["p"][0]:
+                    break
+                nt += timedelta(days=1)
+            if rng.random() < 0.25:
+                nt += timedelta(days=1)
+            if nt.year <= hi:
+                evs.append({"ev": "set", "to": fmt_ts(nt), "boundary": True})
+                t = nt
+        elif prop == "C04" and f["c"] == "pod" and r < 0.5:
             # place the clock around the start hour of the part of day (the library's own
             # table is the specification of "a part of day the library itself knows")
             h0 = core.use_repo()["types"].pod_hours[f["p"][0]][0] % 24
@@ -541,7 +560,8 @@ def _session(prop, rng, n_req):
         elif prop == "C06" and rng.random() < 0.75:
             # (the remaining quarter takes the general clock events below: ticks, jumps, boundaries)
             nt = _clock_instant(rng, f["p"][0], f["p"][1], lo, hi)
-            if f["t"] in ("clock:{hh}{mm} uhr", "clock:{hh}{mm}h") and f["p"][0] == 20 \
+            if (f["t"] in ("clock:{hh}{mm} uhr", "clock:{hh}{mm}h")
+                    or f["t"].startswith("clock:{hh12}{mm} ap")) and f["p"][0] == 20 \
                     and rng.random() < 0.6:
                 # the reference year (or the year three months ahead) spells the same digits
                 yr = 2000 + f["p"][1]
